@@ -368,8 +368,10 @@ func sessPacket(c CaseC02, a *hx.Arena) (hx.SessionRun, *hx.Failure) {
 	p := packet.Packet(b)
 	var probes []hx.Probe
 	var mutators []func()
+	var owned [][]byte // slices the library handed to the caller
 	if m.AFC&1 != 0 {
 		res, err := p.Payload()
+		owned = append(owned, res)
 		if err != nil {
 			return hx.SessionRun{}, hx.Failf("payload-error", "(*Packet).Payload failed on a well-formed packet: %v", err)
 		}
@@ -384,6 +386,7 @@ func sessPacket(c CaseC02, a *hx.Arena) (hx.SessionRun, *hx.Failure) {
 			for i := range res {
 				res[i] ^= 0xA5
 			}
+			appendJunk(res)
 		})
 	}
 	// creation helpers: results belong to the caller
@@ -447,7 +450,11 @@ func sessPacket(c CaseC02, a *hx.Arena) (hx.SessionRun, *hx.Failure) {
 			f()
 		}
 	}
-	return hx.SessionRun{Probes: probes, Mutate: mutate}, nil
+	return hx.SessionRun{Probes: probes, Mutate: mutate, Extend: func() {
+		for _, b := range owned {
+			appendJunk(b)
+		}
+	}}, nil
 }
 
 func genC02Sess(t *rapid.T) CaseC02 {
@@ -487,8 +494,9 @@ func sessCRC(c CaseC13, a *hx.Arena) (hx.SessionRun, *hx.Failure) {
 		for i := range r {
 			r[i] ^= 0xFF
 		}
+		appendJunk(r)
 	}
-	return hx.SessionRun{Probes: []hx.Probe{probe}, Mutate: mutate}, nil
+	return hx.SessionRun{Probes: []hx.Probe{probe}, Mutate: mutate, Extend: func() { appendJunk(r) }}, nil
 }
 
 var propC13Sess = hx.Register(hx.Prop[hx.SessCase[CaseC13]]{ID: "C13", Variant: "session", Thin: 8,
